@@ -9,6 +9,9 @@ package harness
 // signatures are computed last, bottom-up, over the element they sit in.
 
 import (
+	"bytes"
+	"crypto/rand"
+	"crypto/rsa"
 	"crypto/sha1"
 	"crypto/sha256"
 	"crypto/sha512"
@@ -18,7 +21,8 @@ import (
 	"encoding/json"
 	"encoding/xml"
 	"fmt"
-	"math/rand"
+	"math/big"
+	mrand "math/rand"
 	"os"
 	"path/filepath"
 	"sort"
@@ -41,6 +45,11 @@ type stNode struct {
 	Org string    `json:"org,omitempty"`
 	Ed  bool      `json:"ed,omitempty"`
 	Ns  bool      `json:"ns"`
+	// Acc (Assn): what validateAssertion says about the assertion - "" (= "ok", acceptable), "notForThisSP"
+	// (Recipient / audience of another service provider), "expired" (an old login).  A genuine assertion that
+	// is not acceptable is one of the OTHER assertions the IdP signed (B1 / B2); the vector's "ok" is stored
+	// as "" so that documents without such nodes keep the hash they always had
+	Acc string    `json:"acc,omitempty"`
 	Ch  []*stNode `json:"ch"`
 	Key string    `json:"key,omitempty"`
 	Ref string    `json:"ref,omitempty"`
@@ -91,10 +100,29 @@ func (v *stVec) treeHash() string {
 	return hashKey(v.B.String() + string(b))
 }
 
+// normalise: "ok" is the default acceptability
+func (n *stNode) normalise() {
+	if n == nil {
+		return
+	}
+	if n.Acc == "ok" {
+		n.Acc = ""
+	}
+	for _, c := range n.Ch {
+		c.normalise()
+	}
+}
+
+// stKeyName: the harness CERTIFICATE a model certificate name stands for (stored key pairs, and the two
+// certificates made at run time - see stKey)
 func stKeyName(model string) string {
 	switch model {
 	case "Kidp1":
 		return "idp1"
+	case "Kidp1k":
+		return "idp1k"
+	case "Klook":
+		return "look1"
 	case "Kidp2":
 		return "idp2"
 	case "Katt":
@@ -103,6 +131,80 @@ func stKeyName(model string) string {
 		return "idpenc"
 	}
 	panic("unknown model key " + model)
+}
+
+// stKeyOwner: whose PRIVATE key belongs to a harness certificate (the ledger records who signed, by key)
+func stKeyOwner(cert string) string {
+	switch cert {
+	case "idp1k":
+		return "idp1"
+	case "look1":
+		return "att"
+	}
+	return cert
+}
+
+// Certificates made at run time (deterministic: fixed serial numbers and dates, RSA PKCS#1 v1.5):
+//
+//	idp1k  a certificate for the KEY of idp1 with the subject of idp1's stored certificate and a
+//	       SubjectKeyIdentifier extension (the stored certificates carry no extensions at all)
+//	look1  the attacker's look-alike: HIS key (att), subject and SubjectKeyIdentifier copied from idp1k
+var (
+	stGenOnce sync.Once
+	stGen     map[string]*KeyPair
+)
+
+func stMakeCert(serial int64, like *x509.Certificate, ski []byte, signer *KeyPair) *x509.Certificate {
+	tmpl := &x509.Certificate{SerialNumber: big.NewInt(serial), Subject: like.Subject, RawSubject: like.RawSubject,
+		NotBefore: like.NotBefore, NotAfter: like.NotAfter, KeyUsage: x509.KeyUsageDigitalSignature, SubjectKeyId: ski}
+	der, err := x509.CreateCertificate(rand.Reader, tmpl, tmpl, signer.Key.Public(), signer.Key)
+	if err != nil {
+		panic(err)
+	}
+	c, err := x509.ParseCertificate(der)
+	if err != nil {
+		panic(err)
+	}
+	return c
+}
+
+func stKey(name string) *KeyPair {
+	if name != "idp1k" && name != "look1" {
+		return key(name)
+	}
+	stGenOnce.Do(func() {
+		idp1, att := key("idp1"), key("att")
+		ski := sha1.Sum(x509.MarshalPKCS1PublicKey(&idp1.RSA().PublicKey))
+		k := stMakeCert(0x1d91, idp1.Cert, ski[:], idp1)
+		l := stMakeCert(0x100ca1, k, k.SubjectKeyId, att)
+		stGen = map[string]*KeyPair{"idp1k": {Name: "idp1k", Key: idp1.Key, Cert: k}, "look1": {Name: "look1", Key: att.Key, Cert: l}}
+	})
+	return stGen[name]
+}
+
+// stCheckGeneratedCerts: the run-time certificates are what the model says they are ("" when they are)
+func stCheckGeneratedCerts() string {
+	idp1, att, k, l := key("idp1"), key("att"), stKey("idp1k"), stKey("look1")
+	pubEq := func(a, b *x509.Certificate) bool {
+		return a.PublicKey.(*rsa.PublicKey).Equal(b.PublicKey.(*rsa.PublicKey))
+	}
+	switch {
+	case len(idp1.Cert.SubjectKeyId) != 0 || len(key("idp2").Cert.SubjectKeyId) != 0:
+		return "the stored IdP certificates are modelled as carrying no SubjectKeyIdentifier, but one does"
+	case len(k.Cert.SubjectKeyId) == 0:
+		return "idp1k carries no SubjectKeyIdentifier"
+	case !pubEq(k.Cert, idp1.Cert) || !bytes.Equal(k.Cert.RawSubject, idp1.Cert.RawSubject) || k.Cert.Equal(idp1.Cert):
+		return "idp1k is not another certificate for the key and subject of idp1"
+	case !pubEq(l.Cert, att.Cert) || pubEq(l.Cert, idp1.Cert):
+		return "the look-alike does not carry the attacker's key"
+	case !bytes.Equal(l.Cert.RawSubject, k.Cert.RawSubject) || !bytes.Equal(l.Cert.SubjectKeyId, k.Cert.SubjectKeyId):
+		return "the look-alike does not copy subject and SubjectKeyIdentifier of idp1k"
+	}
+	again := stMakeCert(0x1d91, idp1.Cert, k.Cert.SubjectKeyId, idp1)
+	if !bytes.Equal(again.Raw, k.Cert.Raw) {
+		return "certificate generation is not deterministic (replay files would not stay valid)"
+	}
+	return ""
 }
 
 // ---------------------------------------------------------------------------
@@ -267,6 +369,8 @@ type stBase struct {
 	resp    *etree.Element // Response without Signature and without Assertion / EncryptedAssertion
 	art     *etree.Element // ArtifactResponse without Signature and Response (nil when art = none)
 	enc     *etree.Element // EncryptedAssertion as the IdP sent it (nil when plaintext)
+	others  map[string]*etree.Element // B1, B2: other assertions the IdP signed (without Signature), see stOtherSpec
+	otherID map[string]string
 	sigs    map[string]*etree.Element
 	doc     *etree.Element // the untouched message
 	ledger  *stLedger
@@ -295,6 +399,60 @@ func stMallorySpec(now time.Time, id string) AssnSpec {
 		AuthnInstant: stInstant(now.Add(-1 * time.Second)), SessionIndex: "session-mallory-9",
 		Attrs: []AttrSpec{{Name: "uid", Values: []string{"mallory"}}, {Name: "eduPersonAffiliation", Values: []string{"admin", "wheel"}},
 			{Name: "mail", FriendlyName: "mail", Values: []string{"mallory@evil.example"}}}}
+}
+
+const (
+	stOtherSPEntity = "https://other-sp.example.net/entity"
+	stOtherSPACS    = "https://other-sp.example.net/saml/acs"
+	stLongAgo       = -72 * time.Hour
+)
+
+// stUnacceptable turns an assertion specification into one that validateAssertion refuses for the given reason
+// and for that reason only: "notForThisSP" - Recipient and / or audience of another service provider (which of
+// them: chosen by the seed), "expired" - every instant three days old
+func stUnacceptable(a AssnSpec, now time.Time, acc string) AssnSpec {
+	a.Confs = append([]ConfSpec{}, a.Confs...)
+	switch acc {
+	case "", "ok":
+	case "notForThisSP":
+		which := seedVal() % 3 // 0: both, 1: Recipient only, 2: audience only
+		if which != 2 {
+			for i := range a.Confs {
+				a.Confs[i].Recipient = sp(stOtherSPACS)
+			}
+		}
+		if which != 1 {
+			a.Audiences = []string{stOtherSPEntity}
+		}
+	case "expired":
+		old := now.Add(stLongAgo)
+		a.IssueInstant = stInstant(old)
+		for i := range a.Confs {
+			a.Confs[i].NotOnOrAfter = stInstant(old.Add(90 * time.Second))
+		}
+		a.NotBefore, a.NotOnOrAfter = stInstant(old.Add(-30*time.Second)), stInstant(old.Add(90*time.Second))
+		a.AuthnInstant = stInstant(old.Add(-5 * time.Second))
+	default:
+		panic("unknown acceptability " + acc)
+	}
+	return a
+}
+
+// stOtherSpec: the assertions the IdP genuinely signed that the attacker holds besides the message - B1 issued to
+// carol for ANOTHER service provider, B2 alice's login of three days ago at this one
+func stOtherSpec(now time.Time, which, id string) AssnSpec {
+	switch which {
+	case "B1":
+		a := stAliceSpec(now, id)
+		a.NameID, a.SessionIndex = sp("carol@example.com"), "session-carol-4"
+		a.Attrs = []AttrSpec{{Name: "uid", Values: []string{"carol"}}, {Name: "eduPersonAffiliation", Values: []string{"member"}}}
+		return stUnacceptable(a, now, "notForThisSP")
+	case "B2":
+		a := stAliceSpec(now, id)
+		a.SessionIndex = "session-alice-0"
+		return stUnacceptable(a, now, "expired")
+	}
+	panic("unknown other assertion " + which)
 }
 
 func stRespSpec(now time.Time, id string, kids []*etree.Element) RespSpec {
@@ -376,13 +534,27 @@ func stReparse(b []byte) *etree.Element {
 
 // stBuildBase builds and signs (in the order Assertion, Response, ArtifactResponse) one base message.
 func stBuildBase(spec stBaseSpec, gkey string, now time.Time) *stBase {
-	b := &stBase{spec: spec, gkey: gkey, now: now, sigs: map[string]*etree.Element{}, ledger: newLedger()}
+	b := &stBase{spec: spec, gkey: gkey, now: now, sigs: map[string]*etree.Element{}, ledger: newLedger(),
+		others: map[string]*etree.Element{}, otherID: map[string]string{}}
 	tag := spec.String() + "/" + gkey
 	b.assnID = "id-assn-" + hashKey("a"+tag)
 	b.respID = "id-resp-" + hashKey("r"+tag)
 	b.artID = "id-art-" + hashKey("t"+tag)
-	kp := key(gkey)
+	kp := stKey(gkey)          // the IdP's signing key and the certificate it sends
+	owner := stKeyOwner(gkey) // whose key that is: what the ledger records
 	plaintexts := map[*etree.Element]*etree.Element{}
+
+	// the other assertions the IdP signed with that key (the attacker holds them, the ledger knows them)
+	for _, which := range []string{"B1", "B2"} {
+		b.otherID[which] = "id-assn-" + strings.ToLower(which) + "-" + hashKey(which+tag)
+		o := stSigAfterIssuer(signEnveloped(buildAssertion(stOtherSpec(now, which, b.otherID[which])), kp, SigOpts{}))
+		b.ledger.record(owner, o, nil)
+		o = stReparse(docBytes(o))
+		sig := stChildByTag(o, "Signature")
+		o.RemoveChild(sig)
+		stDeclare(o, "saml", nsAssertion)
+		b.others[which], b.sigs[which] = o, sig
+	}
 
 	a := buildAssertion(stAliceSpec(now, b.assnID))
 	{
@@ -394,7 +566,7 @@ func stBuildBase(spec stBaseSpec, gkey string, now time.Time) *stBase {
 	}
 	if spec.SigA {
 		a = stSigAfterIssuer(signEnveloped(a, kp, SigOpts{}))
-		b.ledger.record(gkey, a, nil)
+		b.ledger.record(owner, a, nil)
 	}
 	payload := a
 	if spec.Enc {
@@ -409,7 +581,7 @@ func stBuildBase(spec stBaseSpec, gkey string, now time.Time) *stBase {
 			plaintexts[stChildByTag(r2, "EncryptedAssertion")] = a
 		}
 		r = r2
-		b.ledger.record(gkey, r, plaintexts)
+		b.ledger.record(owner, r, plaintexts)
 	}
 	top := r
 	if spec.Art != "none" {
@@ -420,7 +592,7 @@ func stBuildBase(spec stBaseSpec, gkey string, now time.Time) *stBase {
 			if spec.Enc {
 				plaintexts[t.FindElement("./Response/EncryptedAssertion")] = a
 			}
-			b.ledger.record(gkey, t, plaintexts)
+			b.ledger.record(owner, t, plaintexts)
 		}
 		top = t
 	}
@@ -517,7 +689,7 @@ type stCfgVariant struct {
 
 func (v stCfgVariant) any() bool { return v.Wrap || v.XML }
 
-func stPickCfgVariant(rng *rand.Rand) stCfgVariant {
+func stPickCfgVariant(rng *mrand.Rand) stCfgVariant {
 	return stCfgVariant{Wrap: rng.Intn(3) == 0, XML: rng.Intn(3) == 0, Bad: rng.Intn(len(stBadCerts))}
 }
 
@@ -532,7 +704,7 @@ var stBadCerts = []func() string{
 
 func stIsCert(name string) bool {
 	switch name {
-	case "Kidp1", "Kidp2", "Kenc", "Katt":
+	case "Kidp1", "Kidp1k", "Kidp2", "Kenc", "Katt", "Klook":
 		return true
 	}
 	return false
@@ -546,7 +718,7 @@ func stCertText(name string, cv stCfgVariant) string {
 		}
 		return stBadCerts[cv.Bad%len(stBadCerts)]()
 	}
-	b := key(stKeyName(name)).CertB64()
+	b := stKey(stKeyName(name)).CertB64()
 	if !cv.Wrap {
 		return b
 	}
@@ -593,13 +765,31 @@ func stTrustedByStatement(c *stTrustCfg) []string {
 	return out
 }
 
-// stSigningRoots: harness key names of TrustedKeys(cfg)
+// stSigningRoots: TrustedKeys(cfg) as the harness names of the KEYS those certificates certify ("a signature
+// verifying under one of the IdP certificates the SP is configured to trust" is one made with such a key)
 func stSigningRoots(c *stTrustCfg) []string {
 	out := []string{}
 	for _, k := range stTrustedByStatement(c) {
-		out = append(out, stKeyName(k))
+		o := stKeyOwner(stKeyName(k))
+		dup := false
+		for _, x := range out {
+			dup = dup || x == o
+		}
+		if !dup {
+			out = append(out, o)
+		}
 	}
 	return out
+}
+
+// stTrusts: the configuration names that model certificate as trusted
+func stTrusts(c *stTrustCfg, cert string) bool {
+	for _, t := range c.Trusted {
+		if t == cert {
+			return true
+		}
+	}
+	return false
 }
 
 var stAlgURI = map[string]string{
@@ -686,7 +876,7 @@ func stNewSP(c *stTrustCfg, cv stCfgVariant) *saml.ServiceProvider {
 		if c.Fmt == "otheralg" {
 			alg = map[string]string{"sha256": "sha512", "sha512": "sha256", "sha1": "sha256"}[alg]
 		}
-		f := stFingerprintAlg(key(stKeyName(c.Fp)).Cert, alg)
+		f := stFingerprintAlg(stKey(stKeyName(c.Fp)).Cert, alg)
 		if c.Fmt == "lower" {
 			f = strings.ToLower(f)
 		}
@@ -752,7 +942,7 @@ type stVariants struct {
 
 func (v stVariants) any() bool { return v.Comment || v.Space || v.NoObject || v.Redeclare || v.Prolog }
 
-func stPickVariants(rng *rand.Rand) stVariants {
+func stPickVariants(rng *mrand.Rand) stVariants {
 	p := func() bool { return rng.Intn(4) == 0 }
 	return stVariants{Comment: p(), Space: p(), NoObject: p(), Redeclare: p(), Prolog: p()}
 }
@@ -760,7 +950,7 @@ func stPickVariants(rng *rand.Rand) stVariants {
 type stRender struct {
 	base     *stBase
 	vr       stVariants
-	rng      *rand.Rand
+	rng      *mrand.Rand
 	attSigs  int
 	encMade  int
 	bad      int // which non-certificate string a "bad" KeyInfo holds
@@ -781,6 +971,8 @@ func (r *stRender) concreteID(id string) string {
 		return stEvilID2
 	case "X3":
 		return stEvilID3
+	case "B1", "B2":
+		return r.base.otherID[id]
 	}
 	return ""
 }
@@ -823,8 +1015,8 @@ func stCertItemText(item string, signer *KeyPair, bad int) string {
 			return key("idp1").CertB64() // trusted certificate on an attacker signature
 		}
 		return key("att").CertB64() // attacker certificate on a genuine signature
-	case "Kidp1", "Kidp2", "Katt", "Kenc":
-		return key(stKeyName(item)).CertB64() // that certificate, whoever signed
+	case "Kidp1", "Kidp2", "Katt", "Kenc", "Kidp1k", "Klook":
+		return stKey(stKeyName(item)).CertB64() // that certificate, whoever signed (Klook: the attacker's look-alike)
 	case "bad":
 		return stBadCerts[bad%len(stBadCerts)]() // an X509Certificate element that holds no certificate
 	}
@@ -876,7 +1068,7 @@ func stForeignNS(el *etree.Element) {
 	el.CreateAttr("xmlns:evil", "urn:evil:lookalike:ns")
 }
 
-func stSpaceOut(el *etree.Element, rng *rand.Rand) {
+func stSpaceOut(el *etree.Element, rng *mrand.Rand) {
 	kids := el.ChildElements()
 	for _, c := range kids {
 		el.InsertChildAt(c.Index(), etree.NewText([]string{"\n  ", " ", "\n\t", "\r\n"}[rng.Intn(4)]))
@@ -916,7 +1108,17 @@ func (r *stRender) render(n *stNode) *etree.Element {
 		}
 	case "Assn":
 		if n.Org == "g" {
-			el = b.assn.Copy()
+			// which genuine assertion: the message's (acceptable) or one of the others the IdP signed
+			switch n.Acc {
+			case "":
+				el = b.assn.Copy()
+			case "notForThisSP":
+				el = b.others["B1"].Copy()
+			case "expired":
+				el = b.others["B2"].Copy()
+			default:
+				panic("unknown acceptability " + n.Acc)
+			}
 			if n.Ed {
 				el.FindElement("./Subject/NameID").SetText("mallory@evil.example")
 				if v := el.FindElement("./AttributeStatement/Attribute/AttributeValue"); v != nil {
@@ -924,7 +1126,7 @@ func (r *stRender) render(n *stNode) *etree.Element {
 				}
 			}
 		} else {
-			el = buildAssertion(stMallorySpec(b.now, r.concreteID(n.ID)))
+			el = buildAssertion(stUnacceptable(stMallorySpec(b.now, r.concreteID(n.ID)), b.now, n.Acc))
 			spaceOK = true
 		}
 		if r.vr.Comment {
@@ -941,7 +1143,7 @@ func (r *stRender) render(n *stNode) *etree.Element {
 				panic("vector uses a genuine signature the base message does not have: " + n.Cov)
 			}
 			el = g.Copy()
-			stApplyKI(el, n.Ki, key(b.gkey), r.bad)
+			stApplyKI(el, n.Ki, stKey(b.gkey), r.bad)
 		}
 	case "Obj":
 		el = etree.NewElement("ds:Object")
@@ -1033,7 +1235,7 @@ func (r *stRender) render(n *stNode) *etree.Element {
 	}
 	// AttackerSignsLast: sign this element (everything below is final) for each attacker signature child
 	for _, p := range pend {
-		kp := key(stKeyName(p.node.Key))
+		kp := stKey(stKeyName(p.node.Key))
 		cp := el.Copy()
 		cp.RemoveChildAt(p.placeholder.Index())
 		signed := signEnveloped(cp, kp, SigOpts{})
@@ -1057,7 +1259,7 @@ func (r *stRender) render(n *stNode) *etree.Element {
 }
 
 // stDocument renders the whole vector for one base message.
-func stDocument(v *stVec, b *stBase, vr stVariants, rng *rand.Rand) (doc []byte, r *stRender) {
+func stDocument(v *stVec, b *stBase, vr stVariants, rng *mrand.Rand) (doc []byte, r *stRender) {
 	r = &stRender{base: b, vr: vr, rng: rng, bad: rng.Intn(len(stBadCerts))}
 	root := r.render(v.T)
 	if (v.B.Art != "none") != (v.T.K == "Env") {
